@@ -253,6 +253,11 @@ pub fn c16_compiled(ctx: &Ctx, out: &mut Outcome, known: &[Known]) {
                             f.optional = Some(false);
                             f.inline = false;
                             f.as_same = false;
+                            // every other one inside a struct that has `optional_fields` itself
+                            // (which is a no-op on non-Option fields, the field attribute is not)
+                            if m.name.as_bytes().last().map_or(false, |b| b % 2 == 0) && td.attrs.type_override.is_none() && td.attrs.as_type.is_none() {
+                                td.attrs.optional_fields = Some(false);
+                            }
                             return Some(c);
                         }
                     }
